@@ -1,6 +1,466 @@
-(* C07 - placeholder until Proofs/PackProofs.v is merged *)
-From Xeh Require Import Model.Prelude Model.Bits Model.Codec Proofs.CodecProofs.
+(* C07 - Binary construction is the inverse of binary parsing.
+   Property theorems only; every one is closed by [exact] of a lemma proved in Proofs/.
 
-Theorem C07_from_int_width : forall v w o, clen (from_int v w o) = w.
-Proof. intros v w o. exact (proj2 (from_int_wf v w o)). Qed.
-Check C07_from_int_width : forall v w o, clen (from_int v w o) = w.
+   Vocabulary (Proofs/PackDefs.v, Proofs/PackTable.v; cursor vocabulary as in Props/C06.v):
+   - [field]: FInt w signed order v | FF32 order v | FF64 order v | FBits b | FStr t | FBytes l.
+   - [pack_field fo f]: the bit-string the field packs to ([from_int], [from_fbits], the bytes);
+     [width f] its width; [field_bits fo f] its bits; [fields_bits], [total_width] over lists;
+     [pack fo fs]: the left fold of [Bits.append] over the packed fields (what >bitstr and emit do).
+   - [field_ok]: a raw bit-string is well-formed, byte values are below 256;
+     [field_rd_ok]: moreover widths 1..127 for unsigned and 1..128 for signed integers (the
+     documented limits of uint / int).
+   - [field_arg] / [pack_word]: the value put on the stack and the packing word (v w int! ...);
+     [field_item]: the cell the field contributes to the vector handed to >bitstr;
+     [build fo fs]: %vec-begin, every field's value and packing word, %vec-end, >bitstr.
+   - [read_field]: the matching read word; [read_fields]: one after the other;
+     [parse_back fo fs]: open-bitstr, [read_fields], remain.
+   - [field_value fo f c]: what comes back: v mod 2^w, sext w (v mod 2^w), the real's pattern
+     reduced to 64 bits (for 32 bits: through the binary32 conversions of [fo], which stays
+     universally quantified), a well-formed bit-string with the field's bits.
+   - [emitting s ob n]: interception is on: `output` holds the well-formed [ob], `output-length` [n].
+   - [room s k]: the data-stack limit is not reached by [k] more cells. *)
+From Xeh Require Import Model.Prelude Model.Bits Model.Codec Model.Cell Model.Lexer Model.Fmt
+                        Model.Vm Model.Words Model.Boot.
+From Xeh Require Import Proofs.BitsBasic Proofs.VmStep Proofs.CursorDefs Proofs.CursorProofs
+                        Proofs.PackDefs Proofs.PackTable Proofs.PackProofs Proofs.PackBuild Proofs.PackSurface.
+Local Notation length := List.length.
+
+(* ---------- the words are the programs of the interpreter's table ---------- *)
+Theorem C07_word_table : forall fo,
+  Forall (fun nw => native_fn fo (fst nw) = Some (snd nw)) (pack_table fo).
+Proof. exact pack_table_native. Qed.
+Check C07_word_table : forall fo,
+  Forall (fun nw => native_fn fo (fst nw) = Some (snd nw)) (pack_table fo).
+
+(* ---------- the packing words ---------- *)
+(* uNle! uNbe! iNle! iNbe! (explicit order); any width up to [pack_limit] = 2^20 bits *)
+Theorem C07_pack_int : forall s n o, (n <= pack_limit)%Z ->
+  behaves (pack_int n o s)
+    (fun s' => exists c rest v, ds s = c :: rest /\ value c = CInt v /\
+               ds s' = CBits (from_int v (Z.to_nat n) o) :: rest /\ heap s' = heap s /\ sim s s')
+    (fun _ => fail_frame 1 s).
+Proof. exact pack_int_word. Qed.
+Check C07_pack_int : forall s n o, (n <= pack_limit)%Z ->
+  behaves (pack_int n o s)
+    (fun s' => exists c rest v, ds s = c :: rest /\ value c = CInt v /\
+               ds s' = CBits (from_int v (Z.to_nat n) o) :: rest /\ heap s' = heap s /\ sim s s')
+    (fun _ => fail_frame 1 s).
+
+(* uN! iN!: the order of the big/little switch *)
+Theorem C07_pack_int_cur : forall s, notmeta s -> 6 <= length (heap s) -> forall n,
+  (n <= pack_limit)%Z ->
+  behaves (with_order (pack_int n) s)
+    (fun s' => exists o c rest v, h_order (heap s) = Some o /\
+               ds s = c :: rest /\ value c = CInt v /\
+               ds s' = CBits (from_int v (Z.to_nat n) o) :: rest /\ heap s' = heap s /\ sim s s')
+    (fun _ => fail_frame 1 s).
+Proof. exact pack_int_cur_word. Qed.
+Check C07_pack_int_cur : forall s, notmeta s -> 6 <= length (heap s) -> forall n,
+  (n <= pack_limit)%Z ->
+  behaves (with_order (pack_int n) s)
+    (fun s' => exists o c rest v, h_order (heap s) = Some o /\
+               ds s = c :: rest /\ value c = CInt v /\
+               ds s' = CBits (from_int v (Z.to_nat n) o) :: rest /\ heap s' = heap s /\ sim s s')
+    (fun _ => fail_frame 1 s).
+
+(* int! uint!: value and width on the stack.  [wp m s Q E U]: [m s] returns in a state
+   satisfying [Q], or fails in a state satisfying [E], or is outside the model and [U] holds
+   (here: a width beyond [pack_limit], an allocation failure in the implementation) *)
+Theorem C07_int_store : forall s, notmeta s -> 6 <= length (heap s) ->
+  wp (with_size (fun n => with_order (pack_int n))) s
+     (fun _ s' => exists cn c rest n v o, ds s = cn :: c :: rest /\ is_usize cn n /\
+                  (n <= pack_limit)%Z /\ value c = CInt v /\ h_order (heap s) = Some o /\
+                  ds s' = CBits (from_int v (Z.to_nat n) o) :: rest /\
+                  heap s' = heap s /\ sim s s')
+     (fun _ _ s' => fail_frame 2 s s')
+     (exists cn rest n, ds s = cn :: rest /\ is_usize cn n /\ (pack_limit < n)%Z).
+Proof. exact int_store_word. Qed.
+Check C07_int_store : forall s, notmeta s -> 6 <= length (heap s) ->
+  wp (with_size (fun n => with_order (pack_int n))) s
+     (fun _ s' => exists cn c rest n v o, ds s = cn :: c :: rest /\ is_usize cn n /\
+                  (n <= pack_limit)%Z /\ value c = CInt v /\ h_order (heap s) = Some o /\
+                  ds s' = CBits (from_int v (Z.to_nat n) o) :: rest /\
+                  heap s' = heap s /\ sim s s')
+     (fun _ _ s' => fail_frame 2 s s')
+     (exists cn rest n, ds s = cn :: rest /\ is_usize cn n /\ (pack_limit < n)%Z).
+
+(* fNle! fNbe!: 32 or 64 bits, anything else is the float-length error *)
+Theorem C07_pack_float : forall fo s n o,
+  behaves (pack_float fo n o s)
+    (fun s' => exists c rest v, ds s = c :: rest /\ value c = CReal v /\
+       ((n = 32%Z /\ ds s' = CBits (from_fbits 4 o (f_to_f32 fo v)) :: rest) \/
+        (n = 64%Z /\ ds s' = CBits (from_fbits 8 o v) :: rest)) /\
+       heap s' = heap s /\ sim s s')
+    (fun _ => fail_frame 1 s).
+Proof. exact pack_float_word. Qed.
+Check C07_pack_float : forall fo s n o,
+  behaves (pack_float fo n o s)
+    (fun s' => exists c rest v, ds s = c :: rest /\ value c = CReal v /\
+       ((n = 32%Z /\ ds s' = CBits (from_fbits 4 o (f_to_f32 fo v)) :: rest) \/
+        (n = 64%Z /\ ds s' = CBits (from_fbits 8 o v) :: rest)) /\
+       heap s' = heap s /\ sim s s')
+    (fun _ => fail_frame 1 s).
+
+(* float! *)
+Theorem C07_float_store : forall fo s, notmeta s -> 6 <= length (heap s) ->
+  wp (with_size (fun n => with_order (pack_float fo n))) s
+     (fun _ s' => exists cn c rest n v o, ds s = cn :: c :: rest /\ is_usize cn n /\
+                  value c = CReal v /\ h_order (heap s) = Some o /\
+                  ((n = 32%Z /\ ds s' = CBits (from_fbits 4 o (f_to_f32 fo v)) :: rest) \/
+                   (n = 64%Z /\ ds s' = CBits (from_fbits 8 o v) :: rest)) /\
+                  heap s' = heap s /\ sim s s')
+     (fun _ _ s' => fail_frame 2 s s') False.
+Proof. exact float_store_word. Qed.
+Check C07_float_store : forall fo s, notmeta s -> 6 <= length (heap s) ->
+  wp (with_size (fun n => with_order (pack_float fo n))) s
+     (fun _ s' => exists cn c rest n v o, ds s = cn :: c :: rest /\ is_usize cn n /\
+                  value c = CReal v /\ h_order (heap s) = Some o /\
+                  ((n = 32%Z /\ ds s' = CBits (from_fbits 4 o (f_to_f32 fo v)) :: rest) \/
+                   (n = 64%Z /\ ds s' = CBits (from_fbits 8 o v) :: rest)) /\
+                  heap s' = heap s /\ sim s s')
+     (fun _ _ s' => fail_frame 2 s s') False.
+
+(* ---------- widths and lengths ---------- *)
+Theorem C07_field_width : forall fo f, field_ok f ->
+  wf (pack_field fo f) /\ clen (pack_field fo f) = width f.
+Proof. exact pack_field_wf. Qed.
+Check C07_field_width : forall fo f, field_ok f ->
+  wf (pack_field fo f) /\ clen (pack_field fo f) = width f.
+
+(* pack_len: the concatenation has the fields' bits in order; its length is the sum of the widths *)
+Theorem C07_pack_len : forall fo fs, Forall field_ok fs ->
+  wf (pack fo fs) /\ abs (pack fo fs) = fields_bits fo fs /\ clen (pack fo fs) = total_width fs.
+Proof. exact pack_spec. Qed.
+Check C07_pack_len : forall fo fs, Forall field_ok fs ->
+  wf (pack fo fs) /\ abs (pack fo fs) = fields_bits fo fs /\ clen (pack fo fs) = total_width fs.
+
+(* >bitstr on the vector of the fields' items (packed bit-strings, strings, byte vectors) *)
+Theorem C07_into_bitstr : forall fo s fs c rest,
+  Forall field_ok fs ->
+  ds s = c :: rest -> value c = CVec (map (field_item fo) fs) ->
+  ds_len (cx s) < length (ds s) -> limit_reached (stack_limit s) (length rest) = false ->
+  exists s' p, w_into_bitstr s = ROk tt s' /\
+               ds s' = CBits p :: rest /\ heap s' = heap s /\ sim s s' /\
+               wf p /\ abs p = fields_bits fo fs /\ clen p = total_width fs /\ cstart p = 0.
+Proof. exact into_bitstr_fields. Qed.
+Check C07_into_bitstr : forall fo s fs c rest,
+  Forall field_ok fs ->
+  ds s = c :: rest -> value c = CVec (map (field_item fo) fs) ->
+  ds_len (cx s) < length (ds s) -> limit_reached (stack_limit s) (length rest) = false ->
+  exists s' p, w_into_bitstr s = ROk tt s' /\
+               ds s' = CBits p :: rest /\ heap s' = heap s /\ sim s s' /\
+               wf p /\ abs p = fields_bits fo fs /\ clen p = total_width fs /\ cstart p = 0.
+
+(* when every item is a packed bit-string, >bitstr is exactly [pack] *)
+Theorem C07_into_bitstr_packed : forall fo s fs c rest,
+  ds s = c :: rest -> value c = CVec (map (fun f => CBits (pack_field fo f)) fs) ->
+  ds_len (cx s) < length (ds s) -> limit_reached (stack_limit s) (length rest) = false ->
+  exists s', w_into_bitstr s = ROk tt s' /\
+             ds s' = CBits (pack fo fs) :: rest /\ heap s' = heap s /\ sim s s'.
+Proof. exact into_bitstr_packed. Qed.
+Check C07_into_bitstr_packed : forall fo s fs c rest,
+  ds s = c :: rest -> value c = CVec (map (fun f => CBits (pack_field fo f)) fs) ->
+  ds_len (cx s) < length (ds s) -> limit_reached (stack_limit s) (length rest) = false ->
+  exists s', w_into_bitstr s = ROk tt s' /\
+             ds s' = CBits (pack fo fs) :: rest /\ heap s' = heap s /\ sim s s'.
+
+(* the construction words produce it: [ v w int! ... "str" [ bytes ] ... ] >bitstr *)
+Theorem C07_build : forall fo fs s,
+  Forall field_ok fs -> Forall field_pk_ok fs ->
+  ds_len (cx s) <= length (ds s) -> ss_ptr (cx s) <= length (special s) ->
+  (forall j, j <= length fs -> limit_reached (stack_limit s) (length (ds s) + j) = false) ->
+  exists s' p, build fo fs s = ROk tt s' /\
+               ds s' = CBits p :: ds s /\ heap s' = heap s /\ sim s s' /\
+               wf p /\ abs p = fields_bits fo fs /\ clen p = total_width fs /\ cstart p = 0.
+Proof. exact build_ok. Qed.
+Check C07_build : forall fo fs s,
+  Forall field_ok fs -> Forall field_pk_ok fs ->
+  ds_len (cx s) <= length (ds s) -> ss_ptr (cx s) <= length (special s) ->
+  (forall j, j <= length fs -> limit_reached (stack_limit s) (length (ds s) + j) = false) ->
+  exists s' p, build fo fs s = ROk tt s' /\
+               ds s' = CBits p :: ds s /\ heap s' = heap s /\ sim s s' /\
+               wf p /\ abs p = fields_bits fo fs /\ clen p = total_width fs /\ cstart p = 0.
+
+(* ---------- parse_pack: from a cursor whose remaining bits start with the fields' bits -
+   at whatever offset and alignment - the matching read words return the original values
+   reduced to their widths, in order, and leave exactly the bits after the fields ---------- *)
+Theorem C07_parse_pack : forall fo fs s inp off tail,
+  cursor s inp off -> Forall field_rd_ok fs ->
+  rest_of inp off = (fields_bits fo fs ++ tail)%list ->
+  room s (length fs) ->
+  exists s' vals, read_fields fo fs s = ROk tt s' /\
+    ds s' = (rev vals ++ ds s)%list /\ Forall2 (field_value fo) fs vals /\
+    cursor s' inp (off + Z.of_nat (total_width fs)) /\
+    rest_of inp (off + Z.of_nat (total_width fs)) = tail /\
+    sim s s' /\ h_stash (heap s') = h_stash (heap s) /\
+    (forall a, a <> R_OFFSET -> nth_error (heap s') a = nth_error (heap s) a).
+Proof. exact parse_fields. Qed.
+Check C07_parse_pack : forall fo fs s inp off tail,
+  cursor s inp off -> Forall field_rd_ok fs ->
+  rest_of inp off = (fields_bits fo fs ++ tail)%list ->
+  room s (length fs) ->
+  exists s' vals, read_fields fo fs s = ROk tt s' /\
+    ds s' = (rev vals ++ ds s)%list /\ Forall2 (field_value fo) fs vals /\
+    cursor s' inp (off + Z.of_nat (total_width fs)) /\
+    rest_of inp (off + Z.of_nat (total_width fs)) = tail /\
+    sim s s' /\ h_stash (heap s') = h_stash (heap s) /\
+    (forall a, a <> R_OFFSET -> nth_error (heap s') a = nth_error (heap s) a).
+
+(* open-bitstr on any representation [p] of the fields' bits, read everything, remain = 0;
+   the previous input and offset wait on the stash *)
+Theorem C07_roundtrip : forall fo fs s inp0 off0 v c rest p,
+  cursor s inp0 off0 -> h_stash (heap s) = Some v ->
+  ds s = c :: rest -> value c = CBits p ->
+  wf p -> (Z.of_nat (cend p) < two64)%Z -> abs p = fields_bits fo fs ->
+  Forall field_rd_ok fs ->
+  ds_len (cx s) < length (ds s) ->
+  (forall j, j <= length fs -> limit_reached (stack_limit s) (length rest + j) = false) ->
+  exists s' vals e,
+    parse_back fo fs s = ROk tt s' /\
+    ds s' = (CInt 0 :: rev vals ++ rest)%list /\ Forall2 (field_value fo) fs vals /\
+    cursor s' p (Z.of_nat (cend p)) /\
+    h_stash (heap s') = Some (v ++ [e])%list /\
+    entry_input e = Some inp0 /\ entry_offset e = Some off0.
+Proof. exact roundtrip. Qed.
+Check C07_roundtrip : forall fo fs s inp0 off0 v c rest p,
+  cursor s inp0 off0 -> h_stash (heap s) = Some v ->
+  ds s = c :: rest -> value c = CBits p ->
+  wf p -> (Z.of_nat (cend p) < two64)%Z -> abs p = fields_bits fo fs ->
+  Forall field_rd_ok fs ->
+  ds_len (cx s) < length (ds s) ->
+  (forall j, j <= length fs -> limit_reached (stack_limit s) (length rest + j) = false) ->
+  exists s' vals e,
+    parse_back fo fs s = ROk tt s' /\
+    ds s' = (CInt 0 :: rev vals ++ rest)%list /\ Forall2 (field_value fo) fs vals /\
+    cursor s' p (Z.of_nat (cend p)) /\
+    h_stash (heap s') = Some (v ++ [e])%list /\
+    entry_input e = Some inp0 /\ entry_offset e = Some off0.
+
+(* the whole chain: build with the construction words and >bitstr, open, read back, remain *)
+Theorem C07_build_parse : forall fo fs s inp0 off0 v,
+  cursor s inp0 off0 -> h_stash (heap s) = Some v ->
+  Forall field_rd_ok fs -> (Z.of_nat (total_width fs) < two64)%Z ->
+  ds_len (cx s) <= length (ds s) -> ss_ptr (cx s) <= length (special s) ->
+  (forall j, j <= length fs -> limit_reached (stack_limit s) (length (ds s) + j) = false) ->
+  exists s' vals e,
+    (build fo fs ;; parse_back fo fs) s = ROk tt s' /\
+    ds s' = (CInt 0 :: rev vals ++ ds s)%list /\ Forall2 (field_value fo) fs vals /\
+    (exists p, cursor s' p (Z.of_nat (cend p)) /\ abs p = fields_bits fo fs /\
+               clen p = total_width fs) /\
+    h_stash (heap s') = Some (v ++ [e])%list /\
+    entry_input e = Some inp0 /\ entry_offset e = Some off0.
+Proof. exact build_parse. Qed.
+Check C07_build_parse : forall fo fs s inp0 off0 v,
+  cursor s inp0 off0 -> h_stash (heap s) = Some v ->
+  Forall field_rd_ok fs -> (Z.of_nat (total_width fs) < two64)%Z ->
+  ds_len (cx s) <= length (ds s) -> ss_ptr (cx s) <= length (special s) ->
+  (forall j, j <= length fs -> limit_reached (stack_limit s) (length (ds s) + j) = false) ->
+  exists s' vals e,
+    (build fo fs ;; parse_back fo fs) s = ROk tt s' /\
+    ds s' = (CInt 0 :: rev vals ++ ds s)%list /\ Forall2 (field_value fo) fs vals /\
+    (exists p, cursor s' p (Z.of_nat (cend p)) /\ abs p = fields_bits fo fs /\
+               clen p = total_width fs) /\
+    h_stash (heap s') = Some (v ++ [e])%list /\
+    entry_input e = Some inp0 /\ entry_offset e = Some off0.
+
+(* ---------- the same at the level of source text: the order is switched with big / little
+   between fields, widths are literals in front of int! uint! float! int uint float bits
+   ([pack_src], [read_src], [build_src], [parse_back_src] in Proofs/PackDefs.v) ---------- *)
+Theorem C07_parse_pack_src : forall fo fs s inp off tail,
+  cursor s inp off -> Forall field_rd_ok fs ->
+  rest_of inp off = (fields_bits fo fs ++ tail)%list ->
+  ds_len (cx s) <= length (ds s) -> room s (length fs) ->
+  exists s' vals, read_fields_src fo fs s = ROk tt s' /\
+    ds s' = (rev vals ++ ds s)%list /\ Forall2 (field_value fo) fs vals /\
+    cursor s' inp (off + Z.of_nat (total_width fs)) /\
+    rest_of inp (off + Z.of_nat (total_width fs)) = tail /\
+    sim s s' /\ h_stash (heap s') = h_stash (heap s).
+Proof. exact parse_fields_src. Qed.
+Check C07_parse_pack_src : forall fo fs s inp off tail,
+  cursor s inp off -> Forall field_rd_ok fs ->
+  rest_of inp off = (fields_bits fo fs ++ tail)%list ->
+  ds_len (cx s) <= length (ds s) -> room s (length fs) ->
+  exists s' vals, read_fields_src fo fs s = ROk tt s' /\
+    ds s' = (rev vals ++ ds s)%list /\ Forall2 (field_value fo) fs vals /\
+    cursor s' inp (off + Z.of_nat (total_width fs)) /\
+    rest_of inp (off + Z.of_nat (total_width fs)) = tail /\
+    sim s s' /\ h_stash (heap s') = h_stash (heap s).
+
+Theorem C07_build_src : forall fo fs s,
+  notmeta s -> 6 <= length (heap s) ->
+  Forall field_ok fs -> Forall field_pk_ok fs ->
+  ds_len (cx s) <= length (ds s) -> ss_ptr (cx s) <= length (special s) ->
+  (forall j, j <= S (length fs) -> limit_reached (stack_limit s) (length (ds s) + j) = false) ->
+  exists s' p, build_src fo fs s = ROk tt s' /\
+               ds s' = CBits p :: ds s /\ hsame (heap s) (heap s') /\ sim s s' /\
+               wf p /\ abs p = fields_bits fo fs /\ clen p = total_width fs /\ cstart p = 0.
+Proof. exact build_src_ok. Qed.
+Check C07_build_src : forall fo fs s,
+  notmeta s -> 6 <= length (heap s) ->
+  Forall field_ok fs -> Forall field_pk_ok fs ->
+  ds_len (cx s) <= length (ds s) -> ss_ptr (cx s) <= length (special s) ->
+  (forall j, j <= S (length fs) -> limit_reached (stack_limit s) (length (ds s) + j) = false) ->
+  exists s' p, build_src fo fs s = ROk tt s' /\
+               ds s' = CBits p :: ds s /\ hsame (heap s) (heap s') /\ sim s s' /\
+               wf p /\ abs p = fields_bits fo fs /\ clen p = total_width fs /\ cstart p = 0.
+
+Theorem C07_source_roundtrip : forall fo fs s inp0 off0 v,
+  cursor s inp0 off0 -> h_stash (heap s) = Some v ->
+  Forall field_rd_ok fs -> (Z.of_nat (total_width fs) < two64)%Z ->
+  ds_len (cx s) <= length (ds s) -> ss_ptr (cx s) <= length (special s) ->
+  (forall j, j <= S (length fs) -> limit_reached (stack_limit s) (length (ds s) + j) = false) ->
+  exists s' vals e,
+    (build_src fo fs ;; parse_back_src fo fs) s = ROk tt s' /\
+    ds s' = (CInt 0 :: rev vals ++ ds s)%list /\ Forall2 (field_value fo) fs vals /\
+    (exists p, cursor s' p (Z.of_nat (cend p)) /\ abs p = fields_bits fo fs /\
+               clen p = total_width fs) /\
+    h_stash (heap s') = Some (v ++ [e])%list /\
+    entry_input e = Some inp0 /\ entry_offset e = Some off0.
+Proof. exact source_roundtrip. Qed.
+Check C07_source_roundtrip : forall fo fs s inp0 off0 v,
+  cursor s inp0 off0 -> h_stash (heap s) = Some v ->
+  Forall field_rd_ok fs -> (Z.of_nat (total_width fs) < two64)%Z ->
+  ds_len (cx s) <= length (ds s) -> ss_ptr (cx s) <= length (special s) ->
+  (forall j, j <= S (length fs) -> limit_reached (stack_limit s) (length (ds s) + j) = false) ->
+  exists s' vals e,
+    (build_src fo fs ;; parse_back_src fo fs) s = ROk tt s' /\
+    ds s' = (CInt 0 :: rev vals ++ ds s)%list /\ Forall2 (field_value fo) fs vals /\
+    (exists p, cursor s' p (Z.of_nat (cend p)) /\ abs p = fields_bits fo fs /\
+               clen p = total_width fs) /\
+    h_stash (heap s') = Some (v ++ [e])%list /\
+    entry_input e = Some inp0 /\ entry_offset e = Some off0.
+
+(* ---------- emit with interception on ---------- *)
+Theorem C07_emit : forall s ob n c rest bs,
+  emitting s ob n -> (n < two64)%Z ->
+  ds s = c :: rest -> value c = CBits bs -> wf bs -> ds_len (cx s) < length (ds s) ->
+  exists s', w_emit s = ROk tt s' /\ ds s' = rest /\ sim s s' /\
+             heap s' = emit_heap (heap s) (n + Z.of_nat (clen bs)) (Bits.append false ob bs) /\
+             emitting s' (Bits.append false ob bs) (n + Z.of_nat (clen bs)) /\
+             abs (Bits.append false ob bs) = (abs ob ++ abs bs)%list.
+Proof. exact emit_ok. Qed.
+Check C07_emit : forall s ob n c rest bs,
+  emitting s ob n -> (n < two64)%Z ->
+  ds s = c :: rest -> value c = CBits bs -> wf bs -> ds_len (cx s) < length (ds s) ->
+  exists s', w_emit s = ROk tt s' /\ ds s' = rest /\ sim s s' /\
+             heap s' = emit_heap (heap s) (n + Z.of_nat (clen bs)) (Bits.append false ob bs) /\
+             emitting s' (Bits.append false ob bs) (n + Z.of_nat (clen bs)) /\
+             abs (Bits.append false ob bs) = (abs ob ++ abs bs)%list.
+
+(* any chunks: output grows by their concatenation, output-length by its length *)
+Theorem C07_emit_chunks : forall cs s ob n,
+  emitting s ob n -> Forall wf cs -> (n + Z.of_nat (chunks_len cs) < two64)%Z ->
+  limit_reached (stack_limit s) (length (ds s)) = false ->
+  exists s' ob', emit_all cs s = ROk tt s' /\ ds s' = ds s /\ sim s s' /\
+                 emitting s' ob' (n + Z.of_nat (chunks_len cs)) /\
+                 abs ob' = (abs ob ++ chunks_bits cs)%list.
+Proof. exact emit_chunks. Qed.
+Check C07_emit_chunks : forall cs s ob n,
+  emitting s ob n -> Forall wf cs -> (n + Z.of_nat (chunks_len cs) < two64)%Z ->
+  limit_reached (stack_limit s) (length (ds s)) = false ->
+  exists s' ob', emit_all cs s = ROk tt s' /\ ds s' = ds s /\ sim s s' /\
+                 emitting s' ob' (n + Z.of_nat (chunks_len cs)) /\
+                 abs ob' = (abs ob ++ chunks_bits cs)%list.
+
+(* emit_split: every split [fss] of a field list across several emit calls, from an empty
+   output: `output` denotes the packing of the whole list, `output-length` is its length *)
+Theorem C07_emit_split : forall fo fss s ob,
+  emitting s ob 0 -> abs ob = [] ->
+  Forall (Forall field_ok) fss ->
+  (Z.of_nat (total_width (List.concat fss)) < two64)%Z ->
+  limit_reached (stack_limit s) (length (ds s)) = false ->
+  exists s' ob', emit_all (map (pack fo) fss) s = ROk tt s' /\ ds s' = ds s /\
+    h_output (heap s') = Some ob' /\ wf ob' /\
+    abs ob' = abs (pack fo (List.concat fss)) /\
+    h_outlen (heap s') = Some (Z.of_nat (clen ob')) /\
+    clen ob' = total_width (List.concat fss).
+Proof. exact emit_split. Qed.
+Check C07_emit_split : forall fo fss s ob,
+  emitting s ob 0 -> abs ob = [] ->
+  Forall (Forall field_ok) fss ->
+  (Z.of_nat (total_width (List.concat fss)) < two64)%Z ->
+  limit_reached (stack_limit s) (length (ds s)) = false ->
+  exists s' ob', emit_all (map (pack fo) fss) s = ROk tt s' /\ ds s' = ds s /\
+    h_output (heap s') = Some ob' /\ wf ob' /\
+    abs ob' = abs (pack fo (List.concat fss)) /\
+    h_outlen (heap s') = Some (Z.of_nat (clen ob')) /\
+    clen ob' = total_width (List.concat fss).
+
+(* ---------- non-vacuity ---------- *)
+(* a booted bit-string module (empty input, interception on), 42 on the stack *)
+Definition ex_state (d : list cell) : state :=
+  mkstate [] [CInt 0; CBits (mkcbs 0 0 []); CInt 0; CVec []; CBits (mkcbs 0 0 []); CInt 0]
+          [] [] [] [] d [] [] [] [] ctx0 [] 0%Z None None None None EmptyString None false.
+
+(* widths 3, 13, 64, 16, 16, 128, 127, 5: fields start at bit alignments 0, 3, 0, 0, 0, 0, 0, 7;
+   orders switch between fields; values exceed their widths *)
+Definition ex_fields : list field :=
+  [FInt 3 false Big 13; FInt 13 true Little (-3); FF64 Big 4611686018427387904; FStr "hi";
+   FBytes [1; 255]%N; FInt 128 true Big (-1); FInt 127 false Little (2 ^ 127 + 5);
+   FBits (mkcbs 2 7 [255]%N)].
+
+Definition obs (c : cell) : Z + list bool :=
+  match value c with
+  | CInt z => inl z
+  | CReal z => inl z
+  | CBits b => inr (abs b)
+  | _ => inr []
+  end.
+
+(* what the parse leaves on the stack, top first *)
+Definition ex_expected : list (Z + list bool) :=
+  [inl 0%Z;                                               (* remain *)
+   inr [true; true; true; true; true];                    (* the raw bits *)
+   inl 5%Z;                                               (* (2^127 + 5) mod 2^127 *)
+   inl (-1)%Z;                                            (* 128-bit signed *)
+   inr [false; false; false; false; false; false; false; true;
+        true; true; true; true; true; true; true; true];  (* bytes 1 255 *)
+   inr [false; true; true; false; true; false; false; false;
+        false; true; true; false; true; false; false; true];  (* "hi" *)
+   inl 4611686018427387904%Z;                             (* the real's pattern *)
+   inl (-3)%Z;                                            (* 13-bit signed, little endian *)
+   inl 5%Z;                                               (* 13 mod 2^3 *)
+   inl 42%Z].
+
+Example C07_nonvacuous : forall fo,
+  let s := ex_state [CInt 42] in
+  cursor s (mkcbs 0 0 []) 0 /\ Forall field_rd_ok ex_fields /\ total_width ex_fields = 372 /\
+  (* the construction and reading words with explicit order *)
+  (exists s', (build fo ex_fields ;; parse_back fo ex_fields) s = ROk tt s' /\
+              map obs (ds s') = ex_expected /\ h_offset (heap s') = Some 372%Z) /\
+  (* source text: big / little switches and literal widths *)
+  (exists s', (build_src fo ex_fields ;; parse_back_src fo ex_fields) s = ROk tt s' /\
+              map obs (ds s') = ex_expected /\ h_offset (heap s') = Some 372%Z).
+Proof.
+  intro fo. cbv zeta. split; [|split; [|split; [reflexivity|]]].
+  - split; [reflexivity|]. unfold hcursor. cbn [ex_state heap].
+    split; [cbn; lia|]. split; [reflexivity|]. split; [reflexivity|]. split.
+    + split; [cbn; lia|]. split; [cbn; lia|]. constructor.
+    + split; [reflexivity|]. cbn. lia.
+  - unfold ex_fields.
+    repeat match goal with
+           | |- Forall _ (_ :: _) => constructor
+           | |- Forall _ [] => constructor
+           end; split; cbn [field_ok]; try exact I; try lia.
+    + constructor; [reflexivity|constructor; [reflexivity|constructor]].
+    + split; [cbn; lia|]. split; [cbn; lia|]. constructor; [reflexivity|constructor].
+  - split.
+    + eexists. split; [vm_compute; reflexivity|]. split; reflexivity.
+    + eexists. split; [vm_compute; reflexivity|]. split; reflexivity.
+Qed.
+
+(* a split of a field list across three emit calls (one of them empty) *)
+Example C07_emit_nonvacuous : forall fo,
+  let s := ex_state [CInt 42] in
+  let fss := [[FInt 3 false Big 13; FInt 13 true Little (-3)]; []; [FStr "hi"; FInt 5 false Big 9]] in
+  emitting s (mkcbs 0 0 []) 0 /\
+  exists s', emit_all (map (pack fo) fss) s = ROk tt s' /\ ds s' = [CInt 42] /\
+             h_output (heap s') = Some (pack fo (List.concat fss)) /\
+             h_outlen (heap s') = Some 37%Z /\ total_width (List.concat fss) = 37.
+Proof.
+  intro fo. cbv zeta. split.
+  - unfold emitting. split; [reflexivity|]. split; [cbn; lia|]. split; [cbn; lia|].
+    split; [reflexivity|]. split; [|split; [reflexivity|lia]].
+    split; [cbn; lia|]. split; [cbn; lia|]. constructor.
+  - eexists. split; [vm_compute; reflexivity|]. repeat split.
+Qed.
